@@ -127,6 +127,11 @@ var fuzzClassOnce sync.Once
 // input still fails on this tree. Nothing else is excluded.
 func fuzzClasses() {
 	fuzzClassOnce.Do(func() {
+		if evid.KnownOpen(idIovOverlap) {
+			liveClass[idIovOverlap] = true
+		} else if r, err := execute(knownInputs()[idIovOverlap]); err == nil && r.Harness == "" && r.Msg != "" {
+			liveClass[idIovOverlap] = true
+		}
 		if evid.KnownOpen(idRenumberHuge) {
 			liveClass[idRenumberHuge] = true
 			return
